@@ -105,7 +105,7 @@ func runC14(t *testing.T, seed uint64, planJSON []byte, tier string) (res *Resul
 	}
 	res.Harness = runBubble(t, func(t *testing.T) {
 		w := bootRemoting(seed, tape, BootCfg{LoadBalance: "RandomLoadBalance", CommitRetry: 1, RollbackRetry: 1},
-			simnet.Config{FragmentPct: 15, Reconnect: true, ReconnectAfter: 3 * time.Second, Heartbeat: time.Duration(plan.HeartbeatMs) * time.Millisecond})
+			simnet.Config{FragmentPct: 15, Reconnect: true, ReconnectAfter: 3 * time.Second, Heartbeat: time.Duration(plan.HeartbeatMs) * time.Millisecond, ParkWrites: true})
 		sim, tc, net := w.Sim, w.TC, w.Net
 		sim.Known = loadKnown("C14")
 		sim.MaxStep = 2000000
